@@ -505,9 +505,11 @@ func Main(run *evid.Run, scenarios []*Scenario, budget time.Duration) {
 			_ = v
 		}
 		fmt.Printf("  scenario %-44s execs=%-8d checked=%-8d steps=%-9d pb_done=%d outcomes=%d horizon=%d pruned=%d exhaustive=%v\n", n, m.Stats.Execs, m.Stats.Checked, m.Stats.Transitions, m.Stats.BoundDone, len(m.Stats.Outcomes), m.Stats.Horizon, m.Stats.Pruned, m.Stats.Exhaustive)
-		if len(m.Stats.Sample) > 0 {
-			run.Sample(map[string]any{"scenario": n, "schedule": m.Stats.Sample, "outcomes": m.Stats.Outcomes})
+		sched := m.Stats.Sample
+		if sched == nil {
+			sched = []int{}
 		}
+		run.Sample(map[string]any{"scenario": n, "schedule": sched, "outcomes": m.Stats.Outcomes})
 		for _, ie := range m.Stats.InternalErrs {
 			internal++
 			fmt.Fprintln(os.Stderr, "INTERNAL:", ie)
